@@ -5,8 +5,14 @@
    of the statements of the method body (source after the fix: commits 031d19d, 35d842e, 9802619).
 
    Ghost information: every cached value carries a tag saying what the value *is*:
-     TI        a frequency-independent quantity of this pulse (correct),
-     TF g      the correct value for the frequency grid g,
+     TI        a frequency-independent quantity of this pulse (correct); for quantities expressed in an
+               eigenbasis (eigvals, eigvecs, n_opers_transformed, basis_transformed): in the eigenbasis that
+               numeric.diagonalize returns for this pulse (the canonical decomposition),
+     TF g      the correct value for the frequency grid g (first_order_integral: canonical decomposition),
+     TE e      an eigenbasis-dependent quantity expressed in the decomposition instance e >= 1 that was installed
+               from outside (extend / remap assemble eigvals / eigvecs from those of their inputs: a valid
+               decomposition, but not the one numeric.diagonalize returns -- other order, other phases),
+     TFE g e   first_order_integral for grid g in the decomposition instance e,
      TBad n    something else (wrong data) with a frequency axis of length n.
    Grids are abstract: an identifier and a length; np.array_equal on grids = equality of both.
    The Python object has no tags; the correspondence check (tools/ffv/props/c07.py) compares what
@@ -25,10 +31,10 @@ Definition grid := (nat * nat)%type.            (* identifier, number of frequen
 Definition glen (g : grid) : nat := snd g.
 Definition grid_eqb (a b : grid) : bool := Nat.eqb (fst a) (fst b) && Nat.eqb (snd a) (snd b).
 
-Inductive tag := TI | TF (g : grid) | TBad (n : nat).
+Inductive tag := TI | TF (g : grid) | TBad (n : nat) | TE (e : nat) | TFE (g : grid) (e : nat).
 
 Definition tag_len (t : tag) : option nat :=
-  match t with TI => None | TF g => Some (glen g) | TBad n => Some n end.
+  match t with TI | TE _ => None | TF g | TFE g _ => Some (glen g) | TBad n => Some n end.
 
 (* ------------------------------------------------------------------ slots *)
 Inductive slot :=
@@ -168,22 +174,39 @@ Definition new_dict : M unit := fun l k => (mkL (sl l) (fun _ => None) true (tr 
 
 (* the value a routine evaluated at the requested grid g computes from cached arrays *)
 Definition derive (g : grid) (inputs : list tag) : res tag :=
-  if forallb (fun t => match t with TF g' => grid_eqb g' g | TI => true | TBad _ => false end) inputs
+  if forallb (fun t => match t with TF g' | TFE g' _ => grid_eqb g' g | TI | TE _ => true | TBad _ => false end) inputs
   then Ret (TF g)
   else if forallb (fun t => match tag_len t with Some n => Nat.eqb n (glen g) | None => true end) inputs
        then Ret (TBad (glen g))
        else Raise E_shape.
 Definition lift {A} (r : res A) : M A := fun l k => (l, k, r).
 
+(* eigen-decomposition instances: the instance a value is expressed in, and agreement with the current one *)
+Definition eig_part (t : tag) : option tag :=
+  match t with TI | TF _ => Some TI | TE e | TFE _ e => Some (TE e) | TBad _ => None end.
+Definition eig_same (a b : tag) : bool :=
+  match a, b with TI, TI => true | TE e, TE e' => Nat.eqb e e' | _, _ => false end.
+Definition eig_tag_of (ev : option tag) : tag := match ev with Some t => t | None => TI end.
+Definition eig_consistent (cur : tag) (inputs : list tag) : bool :=
+  forallb (fun t => match eig_part t with Some p => eig_same p cur | None => true end) inputs.
+(* a routine evaluated at grid g with the current eigen-data [cur], cached arrays expressed in an eigenbasis
+   [eigs] (n_opers_transformed, basis_transformed, first_order_integral) and other cached arrays [others] *)
+Definition derive_eig (g : grid) (cur : tag) (eigs others : list tag) : res tag :=
+  if eig_consistent cur eigs then derive g (eigs ++ others) else Ret (TBad (glen g)).
+
 (* how a returned value was obtained: the cached object itself, computed from a cached array without
    reference to the requested frequencies, or computed for the requested frequencies *)
 Inductive how := Served | Derived | Computed.
 
 (* ------------------------------------------------------------------ mechanisms *)
-(* The three repairs of the pinned code.  The model of the current source is [fixed]; the other
-   settings exist only for the ..._needed counterexamples of Proofs/Cache.v.                    *)
-Record mech := mkMech { m_clear_on_cache : bool; m_copy_dict : bool; m_deriv_after_cm : bool }.
-Definition fixed : mech := mkMech true true true.
+(* The three repairs of the pinned code and one proposed repair.  The model of the current source is
+   [fixed]; the other settings exist only for the ..._needed / ..._refuted examples of Proofs/Cache.v. *)
+Record mech := mkMech { m_clear_on_cache : bool; m_copy_dict : bool; m_deriv_after_cm : bool;
+                        m_cleanup_pops_eig : bool }.
+(* the current source: the three repairs are in, the proposed fourth one (cleanup('conservative') also drops
+   the eigenbasis-dependent intermediates, see finding c07-eig-intermediates) is not *)
+Definition fixed : mech := mkMech true true true false.
+Definition proposed : mech := mkMech true true true true.
 
 (* ------------------------------------------------------------------ cleanup *)
 Inductive cleanup_method := Conservative | Greedy | FreqDep | CleanAll.
@@ -288,9 +311,11 @@ Definition cache_cm_rest (g : grid) (v : tag) (is4d : bool) : M unit :=
 Definition cache_cm_given (g : grid) (v : tag) (is4d : bool) : M unit :=
   guard g ;;; cache_cm_rest g v is4d.
 
-Definition update_intermediates (g : grid) : M unit :=
-  setkey K_n_opers_transformed (Some TI) ;;; setkey K_basis_transformed (Some TI) ;;;
-  setkey K_phase_factors (Some (TF g)) ;;; setkey K_first_order_integral (Some (TF g)) ;;;
+(* _intermediates.update with the returned dict: [ev] is the decomposition the arrays were computed in *)
+Definition update_intermediates (g : grid) (ev : tag) : M unit :=
+  setkey K_n_opers_transformed (Some ev) ;;; setkey K_basis_transformed (Some ev) ;;;
+  setkey K_phase_factors (Some (TF g)) ;;;
+  setkey K_first_order_integral (Some (match ev with TE e => TFE g e | _ => TF g end)) ;;;
   setkey K_control_matrix_step (Some (TF g)).
 
 Definition get_cm (g : grid) (ci : bool) : M (tag * how) :=
@@ -312,7 +337,8 @@ Definition get_cm (g : grid) (ci : bool) : M (tag * how) :=
   | None =>
       diagonalize ;;; t_prop ;;;
       may_raise L_cm ;;;
-      (if ci then update_intermediates g else ret tt) ;;;
+      ev <- getslot S_eigvecs ;;
+      (if ci then update_intermediates g (eig_tag_of ev) else ret tt) ;;;
       cache_cm_given g (TF g) false ;;;
       v <- getslot S_control_matrix ;;
       ret (match v with Some v => v | None => TI end, Computed)
@@ -333,12 +359,15 @@ Definition get_pccm : M (tag * how) :=
 
 (* numeric.calculate_second_order_filter_function(..., self._intermediates) *)
 Definition second_order (g : grid) : M tag :=
+  ev <- getslot S_eigvecs ;;
+  nt <- getkey K_n_opers_transformed ;;
   bt <- getkey K_basis_transformed ;; cs <- getkey K_control_matrix_step ;;
   may_raise L_f2 ;;;
-  match bt, cs with
-  | Some tb, Some tc => lift (derive g [tb; tc])
-  | _, _ => ret (TF g)
-  end.
+  (* n_opers_transformed is used whenever present; basis_transformed and control_matrix_step only together *)
+  lift (derive_eig g (eig_tag_of ev)
+          ((match nt with Some t => [t] | None => [] end) ++
+           (match bt, cs with Some tb, Some _ => [tb] | _, _ => [] end))
+          (match bt, cs with Some _, Some tc => [tc] | _, _ => [] end)).
 
 Inductive which := Fidelity | Generalized.
 Inductive order := First | Second.
@@ -427,14 +456,28 @@ Definition get_deriv (g : grid) : M (tag * how) :=
            then a <- getkey K_n_opers_transformed ;; b <- getkey K_first_order_integral ;; ret (a, b)
            else ret pre) ;;
   lazy_prop S_propagators ;;; lazy_prop S_eigvals ;;; lazy_prop S_eigvecs ;;; t_prop ;;;
+  ev <- getslot S_eigvecs ;;
   may_raise L_grad ;;;
   v <- (match post with
-        | (Some ta, Some tb) => lift (derive g [fst r; ta; tb])
+        | (Some ta, Some tb) => lift (derive_eig g (eig_tag_of ev) [ta; tb] [fst r])
         | (None, None) => lift (derive g [fst r])
         | _ => if m_deriv_after_cm mc then lift (derive g [fst r]) else raise E_shape
         end) ;;
   may_raise L_gradff ;;;
   ret (v, Computed).
+
+(* cleanup(method) as called by the user; with the proposed repair the conservative mode also drops the
+   intermediates that are expressed in the eigenbasis being dropped *)
+Definition cleanup_user (m : cleanup_method) : M unit :=
+  cleanup m ;;;
+  match m with
+  | Conservative =>
+      if m_cleanup_pops_eig mc
+      then setkey K_n_opers_transformed None ;;; setkey K_basis_transformed None ;;;
+           setkey K_first_order_integral None
+      else ret tt
+  | _ => ret tt
+  end.
 
 (* ---- functions of numeric.py / gradient.py as compositions of getters *)
 Definition integrate (g : grid) (f : tag) : M (tag * how) :=
@@ -556,7 +599,7 @@ Definition run_op (o : op) : M (option (tag * how)) :=
   | TplProp => noret tpl_prop
   | TProp => noret t_prop
   | TauProp => noret tau_prop
-  | Cleanup m => noret (cleanup m)
+  | Cleanup m => noret (cleanup_user m)
   | BadParams => raise E_value
   | Infidelity g pw tl ci => withret (infidelity g pw tl ci)
   | DecayAmplitudes g pw ci => withret (decay_amplitudes g pw ci)
@@ -605,9 +648,22 @@ Inductive gop :=
 | Call (i : nat) (o : op) (fail_at : option nat)  (* method call on object i; aborts at raise point fail_at *)
 | Copy (i : nat)                               (* copy.copy(pulse i)  -> new object nobj *)
 | DeepCopy (i : nat)                           (* copy.deepcopy       -> new object nobj *)
-| Fresh.                                       (* a newly constructed pulse -> new object nobj *)
+| Fresh                                        (* a newly constructed pulse -> new object nobj *)
+| FreshExtended.                               (* a pulse made by extend(...) with cached diagonalization:
+                                                  eigvals / eigvecs assembled from those of the inputs *)
 
-Definition gop_ok (c : gop) : bool := match c with Call _ o _ => op_ok o | _ => true end.
+(* hypotheses on histories: user data is what the caller says, and no eigen-decomposition other than the one
+   numeric.diagonalize returns is installed (objects made by extend / remap with cached diagonalization are
+   excluded: for them the statement is refuted, see extended_refuted in Proofs/Cache.v) *)
+Definition gop_ok (c : gop) : bool :=
+  match c with Call _ o _ => op_ok o | FreshExtended => false | _ => true end.
+
+Definition extended_slots : slot -> option tag :=
+  fun s => match s with
+           | S_eigvals | S_eigvecs => Some (TE 1)
+           | S_propagators | S_total_propagator => Some TI
+           | _ => None
+           end.
 
 Definition never : option nat := None.   (* no injected failure *)
 
@@ -636,6 +692,9 @@ Definition exec (mc : mech) (st : store) (c : gop) : store * res (option (tag * 
   | Fresh =>
       (mkS (S (nobj st)) (updn (objs st) (nobj st) (fun _ => None)) (updn (iref st) (nobj st) (ndict st))
            (S (ndict st)) (updn (dicts st) (ndict st) (fun _ => None)), Ret None, [])
+  | FreshExtended =>
+      (mkS (S (nobj st)) (updn (objs st) (nobj st) extended_slots) (updn (iref st) (nobj st) (ndict st))
+           (S (ndict st)) (updn (dicts st) (ndict st) (fun _ => None)), Ret None, [])
   end.
 
 Definition step_with (mc : mech) (st : store) (c : gop) : store := fst (fst (exec mc st c)).
@@ -659,6 +718,13 @@ Definition result_class (r : res (option (tag * how))) : N :=
   | Raise E_calc => 3 | Raise E_value => 4 | Raise (E_injected _) => 5 | Raise E_shape => 6
   end%N.
 
+(* what the model says about the returned value: 0 the correct value for some grid, 1 wrong data (or a shape
+   mismatch), 2 nothing to say *)
+Definition value_flag (r : res (option (tag * how))) : N :=
+  match r with
+  | Ret (Some (TF _, _)) => 0 | Ret (Some (TBad _, _)) => 1 | Raise E_shape => 1 | _ => 2
+  end%N.
+
 Definition patch_trace (t : list label) : list N := map label_idx (filter patchable t).
 
 (* raise-point index (in the model's numbering) of the j-th call of a patchable routine *)
@@ -679,14 +745,15 @@ Definition resolve (st : store) (h : hcall) : gop :=
   | HFail i o j => Call i o (nth_patchable (snd (exec fixed st (Call i o never))) j 0)
   end.
 
-(* observation after one call: result class, routines called, occupancy of every object *)
-Definition observe (st : store) (h : hcall) : store * (N * list N * list N) :=
+(* observation after one call: result class, routines called, occupancy of every object, value flag *)
+Definition observation := (N * list N * list N * N)%type.
+Definition observe (st : store) (h : hcall) : store * observation :=
   let c := resolve st h in
   match exec fixed st c with
-  | (st', r, t) => (st', (result_class r, patch_trace t, map (occupancy st') (seq 0 (nobj st'))))
+  | (st', r, t) => (st', (result_class r, patch_trace t, map (occupancy st') (seq 0 (nobj st')), value_flag r))
   end.
 
-Fixpoint observe_all (st : store) (hs : list hcall) : list (N * list N * list N) :=
+Fixpoint observe_all (st : store) (hs : list hcall) : list observation :=
   match hs with
   | [] => []
   | h :: r => let (st', o) := observe st h in o :: observe_all st' r
@@ -694,12 +761,17 @@ Fixpoint observe_all (st : store) (hs : list hcall) : list (N * list N * list N)
 
 Definition N_list_eqb (a b : list N) : bool :=
   Nat.eqb (List.length a) (List.length b) && forallb (fun p => N.eqb (fst p) (snd p)) (combine a b).
-Definition obs_eqb (a b : N * list N * list N) : bool :=
-  N.eqb (fst (fst a)) (fst (fst b)) && N_list_eqb (snd (fst a)) (snd (fst b))
-  && N_list_eqb (snd a) (snd b).
+(* model m against implementation i.  The implementation's value flag is 0 if the returned value equals that of
+   the same request on a fresh pulse, 1 if it differs, 2 if not compared: a value the model calls correct must
+   not differ (a value the model calls wrong may be right by accident: the model is pessimistic there). *)
+Definition obs_eqb (m i : observation) : bool :=
+  match m, i with
+  | (mrc, mtr, mocc, mv), (irc, itr, iocc, iv) =>
+      N.eqb mrc irc && N_list_eqb mtr itr && N_list_eqb mocc iocc && negb (N.eqb mv 0 && N.eqb iv 1)
+  end.
 
 (* (calls on which model and implementation agree, 0, calls on which they differ) *)
-Fixpoint tally_obs (model impl : list (N * list N * list N)) : N * N * N :=
+Fixpoint tally_obs (model impl : list observation) : N * N * N :=
   match model, impl with
   | [], [] => (0, 0, 0)
   | m :: mr, i :: ir => let '(a, u, d) := tally_obs mr ir in
@@ -707,5 +779,5 @@ Fixpoint tally_obs (model impl : list (N * list N * list N)) : N * N * N :=
   | _, _ => (0, 0, 1)
   end%N.
 
-Definition history_tally (hs : list hcall) (impl : list (N * list N * list N)) : N * N * N :=
+Definition history_tally (hs : list hcall) (impl : list observation) : N * N * N :=
   tally_obs (observe_all init hs) impl.
